@@ -1062,6 +1062,7 @@ func anchoredStars(c Case) map[string]bool {
 		}
 	}
 	out := map[string]bool{}
+	named := func(x string) bool { return x != "" && x != "*" }
 	for _, o := range c.Ops {
 		if o.Kind == "register" || o.Kind == "replace" {
 			if star[o.Before] {
@@ -1069,6 +1070,13 @@ func anchoredStars(c Case) map[string]bool {
 			}
 			if star[o.After] {
 				out[o.After] = true
+			}
+			// the sorter writes a named constraint into the anchor as well (Before(y).Register(x) leaves y with
+			// "after x", and keeps it across later compiles - the mechanism of the listed forward-reference
+			// finding): a callback that ever carried a named constraint and is a '*' callback at some point of
+			// the history is an anchored '*' callback too
+			if (named(o.Before) || named(o.After)) && star[o.Name] {
+				out[o.Name] = true
 			}
 		}
 	}
